@@ -237,18 +237,51 @@ def round4_shapes(quick):
         ("mono-growth-no-base-case", b"fn f<T>(x: T) -> int {\n    return f([x]) + f(fn() -> T { return x })\n}\nprint(1)"),
     ]
     # the call-site counter is program wide (u16); the VM has its own, lower, slot limit
-    for n in (4096, 4097, 65536, 66000) if quick else (255, 256, 4095, 4096, 4097, 32767, 32768, 65534, 65535, 65536, 65537, 66000, 131072):
+    for n in (4097, 66000) if quick else (255, 256, 4095, 4096, 4097, 32767, 32768, 65534, 65535, 65536, 65537, 66000, 131072):
         out.append((f"many-call-sites-{n}", ("fn g(x) { return x }\n" + "g(1)\n" * n).encode()))
     if not quick:
       out.append(("many-call-sites-in-lambdas-66000", ("fn g(x) { return x }\n" + "".join(f"let h{i} = fn() {{\n" + "g(1)\n" * 330 + "}\n" for i in range(200)) + "print(1)").encode()))
       out.append(("many-call-sites-nested-args-66000", ("fn g(x) { return x }\n" + ("g(g(g(g(g(g(g(g(g(g(1))))))))))\n" * 6600)).encode()))
-    out.append(("many-call-sites-in-functions-66000", ("fn g(x) { return x }\n" + "".join(f"fn h{i}() {{\n" + "g(1)\n" * 330 + "}\n" for i in range(200)) + "print(1)").encode()))
+    if not quick:
+      out.append(("many-call-sites-in-functions-66000", ("fn g(x) { return x }\n" + "".join(f"fn h{i}() {{\n" + "g(1)\n" * 330 + "}\n" for i in range(200)) + "print(1)").encode()))
     # flat programs whose inference links one type variable per statement (run with a 1 MiB stack by the CLI driver)
-    for n in (1000, 3000):
+    for n in (1000, 2600) if quick else (1000, 3000, 5000):
+        if quick and n > 1000:
+            out.append((f"var-chain-module-arg-{n}", ("needs std.math\nfn g(x) { return x }\n" + "g(math.abs(1))\n" * n).encode()))
+            continue
         out.append((f"var-chain-module-arg-{n}", ("needs std.math\nfn g(x) { return x }\n" + "g(math.abs(1))\n" * n).encode()))
         out.append((f"var-chain-native-result-{n}", ("needs std.math\nlet mut a = math.abs(1)\nfn g(x) { return x }\n" + "a = g(math.abs(a))\n" * n).encode()))
         out.append((f"var-chain-lambda-arg-{n}", ("needs std.math\nlet g = fn(x) { x }\n" + "g(math.sqrt(4.0))\n" * n).encode()))
     out.append(("many-call-sites-module-4097", ("needs std.math\nfn g(x) { return x }\n" + "g(math.abs(1))\n" * 4097).encode()))
+    return out
+
+
+def slice_shapes(quick):
+    """slice and range expressions (parsed and type-checked, no lowering in the code generator) in every expression position"""
+    out = []
+    slices = {"mid": "a[1..2]", "from": "a[1..]", "to": "a[..2]", "full": "a[..]", "incl": "a[1..=2]", "vars": "a[i..j]", "nested": "a[1..3][0..1]",
+              "of-call": "mk()[0..1]", "expr-bounds": "a[(i + 1)..(j * 2)]", "neg": "a[-1..2]"}
+    if quick:
+        slices = {k: slices[k] for k in ("mid", "to", "vars", "of-call")}
+    decls = {"array": "let a = Array[1, 2, 3, 4]", "literal": "let a = [1, 2, 3, 4]", "vec": "let a = Vec[1, 2, 3, 4]", "string": 'let a = "hello"'}
+    pos = {
+        "let": "let s = {e}\nprint(s)", "arg": "print({e})", "return": "fn f(a, i, j) {{ return {e} }}\nprint(f(a, i, j))", "implicit": "fn f(a, i, j) {{ {e} }}\nprint(f(a, i, j))",
+        "condition": "if {e} == a {{ print(1) }}", "while": "while {e} == 0 {{ break }}", "operand": "let s = {e} + {e}", "index": "print({e}[0])",
+        "method": "print({e}.len())", "fmt": 'print("{{{e}}}")', "lambda": "let g = fn() {{ {e} }}\nprint(g())", "for-iter": "for x in {e} {{ print(x) }}",
+        "assign": "let mut s = a\ns = {e}", "assign-target": "{e} = a", "array-elem": "let s = [{e}, {e}]", "call-arg-user": "fn h(x) {{ return x }}\nprint(h({e}))",
+        "struct-field": "struct S {{ f: int }}\nlet s = S {{ f: {e} }}", "unary": "print(not {e})", "cast": "print({e} as int)", "and": "print(true and {e})",
+        "closure": "fn mkc(a, i, j) {{ return fn() {{ {e} }} }}\nprint(mkc(a, i, j)())", "top-level": "{e}",
+    }
+    for dn, d in decls.items():
+        for sn, e in slices.items():
+            for pn, t in pos.items():
+                if quick and dn != "array" and pn not in ("let", "return", "top-level"):
+                    continue
+                out.append((f"slice-{dn}-{sn}-{pn}", (d + "\nlet i = 1\nlet j = 2\nfn mk() { return [1, 2, 3] }\n" + t.format(e=e)).encode()))
+    for k, v in {"bare": "let r = 1..5\nprint(r)", "paren": "let r = (1..5)\nprint(r)", "arg": "print(1..5)", "incl": "print((1..=5))", "in-array": "let r = [1..5]",
+                 "for-var": "let r = (0..3)\nfor i in r { print(i) }", "step": "for i in (0..10) { print(i) }", "return": "fn f() { return (1..2) }\nprint(f())",
+                 "open": "print((..5))", "index-range-var": "let a = [1, 2, 3]\nlet r = (0..1)\nprint(a[r])"}.items():
+        out.append((f"range-{k}", v.encode()))
     return out
 
 
@@ -305,6 +338,7 @@ def structured_source(quick):
             (f"far-column-wide-span-{col}", ("print(" + "a" * col + ")").encode()),
             (f"far-column-after-multibyte-{col}", ('let s = "' + "\u00e9" * col + '"; print(undefined_thing)').encode()),
         ]
+    out += slice_shapes(quick)
     out += round4_shapes(quick)
     out += infinite_type_shapes(quick)
     out += did_you_mean_shapes(quick)
@@ -726,7 +760,7 @@ def input_class(kind, label, data):
             return "infinite-type"
         if label.startswith("didyoumean-"):
             return "did-you-mean"
-        m = re.match(r"(dupstruct|mono-growth|many-call-sites|var-chain)-", label)
+        m = re.match(r"(dupstruct|mono-growth|many-call-sites|var-chain|slice|range)-", label)
         if m:
             return m.group(1)
         base = re.sub(r"-\d+$", "", label)
@@ -922,7 +956,7 @@ def run(ctx):
         cap = 40 if quick else 150
         for n, ((kind, label, data), o) in enumerate(zip(inputs, outcomes)):
             structured = not label.startswith(("mut-", "raw"))
-            fam = re.match(r"(inftype|didyoumean)-", label)
+            fam = re.match(r"(inftype|didyoumean|slice)-", label)
             if fam and quick and not (o or "").startswith(("panic", "crash", "stack-overflow", "alloc-failure", "missing")):
                 per_kind[fam.group(1)] += 1
                 if per_kind[fam.group(1)] % 8 != 1:
